@@ -69,23 +69,25 @@ def controlDtcMakeRequest (settingType : Int) (data : Option Bytes) : Py Request
   validateInt settingType 0 0x7F
   pure (mkReq "ControlDTCSetting" (some settingType.toNat) data)
 
+/-- the baud-rate argument must be given exactly with control types 1 and 2 -/
+def linkCheckPresence (controlType : Int) (baud : Option Baudrate) : Py Unit :=
+  if controlType == 1 || controlType == 2 then guardPy baud.isNone .valueErr else guardPy baud.isSome .valueErr
+
+/-- type 2 transmits the effective rate as a specific baud rate; type 1 turns a specific rate into its standard identifier -/
+def linkBaud (controlType : Int) (b : Baudrate) : Py Baudrate :=
+  if controlType == 2 then b.makeNewType .specific
+  else if controlType == 1 && b.baudtype == .specific then b.makeNewType .fixed
+  else pure b
+
 /-- `LinkControl.make_request` -/
 def linkControlMakeRequest (controlType : Int) (baud : Option Baudrate) : Py Request := do
   validateInt controlType 0 0x7F
-  if controlType == 1 || controlType == 2 then
-    if baud.isNone then throw .valueErr
-  else
-    if baud.isSome then throw .valueErr
-  let baud' ← match baud with
-    | none => pure none
-    | some b =>
-      if controlType == 2 then do let x ← b.makeNewType .specific; pure (some x)
-      else if controlType == 1 && b.baudtype == .specific then do let x ← b.makeNewType .fixed; pure (some x)
-      else pure (some b)
-  match baud' with
+  linkCheckPresence controlType baud
+  match baud with
   | none => pure (mkReq "LinkControl" (some controlType.toNat) none)
   | some b => do
-    let bs ← b.getBytes
+    let b' ← linkBaud controlType b
+    let bs ← b'.getBytes
     pure (mkReq "LinkControl" (some controlType.toNat) (some bs))
 
 def routineControlMakeRequest (rid ct : Int) (data : Option Bytes) : Py Request := do
